@@ -32,10 +32,10 @@ pub fn passes(tier: &str) -> Vec<Pass> {
         mk("narrow-big/blob-overwritten", blob.clone(), Alpha::narrow(true), "blob_overwritten", if q { 3 } else { 5 }, 2, if q { 4.0 } else { 90.0 }, Probe::Lite),
         mk("narrow/leveled-l0=2", l2.clone(), Alpha::narrow(false), "", if q { 4 } else { 7 }, 3, if q { 4.0 } else { 150.0 }, Probe::Lite),
     ];
+    v.push(mk("narrow/fifo", fifo.clone(), Alpha::narrow(false), "", if q { 3 } else { 6 }, 3, if q { 2.0 } else { 90.0 }, Probe::Lite));
     if !q {
         v.push(mk("wide/l6_l0_mem", d.clone(), Alpha::wide(), "l6_l0_mem", 3, 2, 80.0, Probe::Full));
         v.push(mk("narrow/tiny-memtable", tiny, Alpha::narrow(false), "", 6, 4, 90.0, Probe::Lite));
-        v.push(mk("narrow/fifo", fifo, Alpha::narrow(false), "", 6, 4, 90.0, Probe::Lite));
         v.push(mk("narrow-big/no-journal-compression", nocomp, Alpha::narrow(true), "", 5, 4, 60.0, Probe::Lite));
         v.push(mk("two-keys/leveled-l0=2", l2, Alpha::two_keys(), "", 6, 4, 80.0, Probe::Full));
         v.push(mk("wide/blob", blob, Alpha::wide(), "", 3, 2, 60.0, Probe::Full));
